@@ -1132,6 +1132,11 @@ func init() {
 				r.rw = kind == "rwmutex"
 				rootsArg = args[2]
 			}
+			if kind == "confined" {
+				// goroutine confinement: only code running (transitively) inside the named function may touch it
+				r.owner = ex.strArg(args[1])
+				rootsArg = args[2]
+			}
 			seen := map[interface{}]bool{}
 			// never descend into what a stop set names (registered before)
 			for k := range ex.monitor.stop {
@@ -1182,6 +1187,7 @@ func init() {
 	reg("vf:vfGuardRW", guard("rwmutex"))
 	reg("vf:vfGuardNoWrite", guard("nowrite"))
 	reg("vf:vfGuardAtomic", guard("atomic"))
+	reg("vf:vfGuardConfined", guard("confined"))
 	reg("vf:vfGuardStop", func(ex *Exec, fr *Frame, args []Value, site ssa.Instruction) Value {
 		if ex.monitor == nil {
 			ex.monitor = &lockMonitor{cells: map[*Value]*guardRule{}, objs: map[interface{}]*guardRule{}, reports: map[string]bool{}}
